@@ -569,3 +569,161 @@ Lemma vocabulary_meaning srcs s d' s2 m m1 m2 objs :
        /\ bad_frees s2 = bad_frees s
        /\ (let sf := release_all srcs s2 in wf sf /\ owns d' sf /\ whole d' sf /\ bad_frees sf = bad_frees s))).
 Proof. split; [apply iff_refl|]. split; [apply iff_refl|]. split; [apply iff_refl|apply owned_beside_meaning]. Qed.
+
+(* ================================================================ Part G: recorded blocks of a borrowed object *)
+(* forget the block recorded for a present non-empty text *)
+Definition strip_t (t : mtext) : mtext :=
+  match t_val t with Some (_ :: _) => {| t_val := t_val t; t_blk := None |} | _ => t end.
+Definition strip_seg (sg : mseg) : mseg :=
+  match sg_text sg with _ :: _ => {| sg_text := sg_text sg; sg_blk := None; sg_node := sg_node sg |} | [] => sg end.
+Definition strip (m : muri) : muri :=
+  {| m_scheme := strip_t (m_scheme m); m_userInfo := strip_t (m_userInfo m); m_hostText := strip_t (m_hostText m);
+     m_ip4 := m_ip4 m; m_ip6 := m_ip6 m; m_ipFuture := strip_t (m_ipFuture m); m_portText := strip_t (m_portText m);
+     m_segs := map strip_seg (m_segs m); m_query := strip_t (m_query m); m_fragment := strip_t (m_fragment m);
+     m_abs := m_abs m; m_owner := m_owner m |}.
+
+Lemma strip_t_val t : t_val (strip_t t) = t_val t.
+Proof. unfold strip_t. destruct (t_val t) as [[|c x]|] eqn:E; cbn [t_val]; congruence. Qed.
+Lemma strip_t_blk t : text_blk (strip_t t) = [].
+Proof. unfold strip_t, text_blk. destruct (t_val t) as [[|c x]|] eqn:E; cbn [t_val t_blk blk_list]; try rewrite E; reflexivity. Qed.
+Lemma strip_seg_text sg : sg_text (strip_seg sg) = sg_text sg.
+Proof. unfold strip_seg. destruct (sg_text sg) eqn:E; cbn [sg_text]; congruence. Qed.
+Lemma strip_seg_node sg : sg_node (strip_seg sg) = sg_node sg.
+Proof. unfold strip_seg. destruct (sg_text sg) eqn:E; reflexivity. Qed.
+Lemma strip_segs_blk segs : flat_map seg_blk (map strip_seg segs) = [].
+Proof.
+  induction segs as [|sg r IH]; [reflexivity|]. cbn [map flat_map]. rewrite IH, app_nil_r.
+  unfold strip_seg, seg_blk. destruct (sg_text sg) eqn:E; cbn [sg_text sg_blk blk_list]; try rewrite E; reflexivity.
+Qed.
+
+Lemma erase_strip m : erase (strip m) = erase m.
+Proof.
+  unfold erase, strip. cbn [m_scheme m_userInfo m_hostText m_ip4 m_ip6 m_ipFuture m_portText m_segs m_query m_fragment m_abs m_owner].
+  rewrite !strip_t_val, map_map. f_equal. apply map_ext. exact strip_seg_text.
+Qed.
+Lemma text_blocks_strip m : text_blocks (strip m) = [].
+Proof.
+  unfold text_blocks, block_parts, strip.
+  cbn [m_scheme m_userInfo m_hostText m_ip4 m_ip6 m_ipFuture m_portText m_segs m_query m_fragment concat].
+  rewrite !strip_t_blk, strip_segs_blk. reflexivity.
+Qed.
+Lemma mwf_strip m : mwf_host m -> m_owner m = false -> mwf (strip m).
+Proof.
+  intros Hh Ho. split; [|rewrite text_blocks_strip; split; [constructor|split; [|reflexivity]]].
+  - intros x. unfold strip. cbn [m_ipFuture m_hostText]. rewrite !strip_t_val. apply Hh.
+  - intros H. unfold strip in H. cbn [m_owner] in H. congruence.
+Qed.
+
+Section Strip.
+Variable cs : N.
+
+Definition clear (done b : N) : bool := (N.land done b =? 0)%N.
+
+Lemma dup_text_strip t s : dup_text cs (strip_t t) s = dup_text cs t s.
+Proof. unfold dup_text, strip_t. destruct t as [[[|c x]|] b]; reflexivity. Qed.
+
+Lemma range_owner_strip done b t s : clear done b = true -> range_owner cs done b (strip_t t) s = range_owner cs done b t s.
+Proof.
+  unfold clear. intros H. unfold range_owner. rewrite H. cbn [negb]. rewrite strip_t_val.
+  destruct (t_val t) as [[|c x]|] eqn:E; try (unfold strip_t; rewrite E; reflexivity).
+  rewrite dup_text_strip. reflexivity.
+Qed.
+
+Lemma range_owner_clear done b t s t' done' s' b2 :
+  range_owner cs done b t s = (Some (t', done'), s') -> clear done b2 = true -> clear b b2 = true -> clear done' b2 = true.
+Proof.
+  unfold range_owner, clear. intros H H1 H2.
+  assert (X : (N.land (N.lor done b) b2 =? 0)%N = true).
+  { rewrite N.land_lor_distr_l. apply N.eqb_eq in H1, H2. rewrite H1, H2. reflexivity. }
+  destruct (negb (N.land done b =? 0)%N); [injection H as _ <- _; exact H1|].
+  destruct (t_val t) as [[|c x]|]; try (injection H as _ <- _; exact H1).
+  destruct (dup_text cs t s) as [[t1|] s1]; [|discriminate H]. injection H as _ <- _. exact X.
+Qed.
+
+Lemma fold_free_nodes_strip rest : forall s,
+  fold_left (fun st x => free_blk (sg_node x) st) (map strip_seg rest) s = fold_left (fun st x => free_blk (sg_node x) st) rest s.
+Proof. induction rest as [|sg r IH]; intros s; [reflexivity|]. cbn [map fold_left]. rewrite strip_seg_node. apply IH. Qed.
+
+Lemma own_segs_strip rest : forall acc s, own_segs cs acc (map strip_seg rest) s = own_segs cs acc rest s.
+Proof.
+  induction rest as [|sg r IH]; intros acc s; [reflexivity|]. cbn [map own_segs]. rewrite strip_seg_text.
+  destruct (sg_text sg) as [|c x] eqn:E.
+  - unfold strip_seg at 1. rewrite E. apply IH.
+  - rewrite strip_seg_node. destruct (alloc false (tlen (c :: x) * cs) s) as [[id|] s1].
+    + apply IH.
+    + change (strip_seg sg :: map strip_seg r) with (map strip_seg (sg :: r)). rewrite fold_free_nodes_strip. reflexivity.
+Qed.
+
+Lemma strip_t_none t : t_val t = None -> strip_t t = t.
+Proof. intros H. unfold strip_t. rewrite H. reflexivity. Qed.
+
+Ltac mcbn :=
+  cbn [m_scheme m_userInfo m_hostText m_ip4 m_ip6 m_ipFuture m_portText m_segs m_query m_fragment m_abs m_owner
+       set_m_scheme set_m_userInfo set_m_query set_m_fragment set_m_hostText set_m_ipFuture set_m_segs set_m_portText] in *.
+
+(* the tail of the engine: path, then port *)
+Ltac tail Cp :=
+  unfold path_step; unfold clear in Cp; rewrite Cp; cbn [negb]; mcbn; rewrite own_segs_strip;
+  match goal with |- context [own_segs cs [] ?l ?z] => destruct (own_segs cs [] l z) as [[sg'|] z6] end;
+  [|intros H; discriminate H]; mcbn; rewrite dup_text_strip;
+  match goal with |- context [dup_text cs ?t ?z] => destruct (dup_text cs t z) as [[t7|] z7] end;
+  [|intros H; discriminate H]; intros H; injection H as <- <- <-; mcbn.
+
+Lemma engine_strip m s m' d' s' :
+  make_owner_engine cs (strip m) 0 s = (true, m', d', s') -> make_owner_engine cs m 0 s = (true, m', d', s').
+Proof.
+  intros H. rewrite engine_unfold in H. rewrite engine_unfold. revert H. unfold engine'.
+  destruct m as [sch usr hst i4 i6 fut prt segs qry frg ab ow]. unfold strip. mcbn.
+  rewrite (range_owner_strip 0 B_SCHEME sch s eq_refl).
+  destruct (range_owner cs 0 B_SCHEME sch s) as [[[t1 d1]|] z1] eqn:E1; [|intros H; discriminate H].
+  pose proof (range_owner_clear _ _ _ _ _ _ _ B_USER E1 eq_refl eq_refl) as C1u.
+  pose proof (range_owner_clear _ _ _ _ _ _ _ B_QUERY E1 eq_refl eq_refl) as C1q.
+  pose proof (range_owner_clear _ _ _ _ _ _ _ B_FRAG E1 eq_refl eq_refl) as C1f.
+  pose proof (range_owner_clear _ _ _ _ _ _ _ B_HOST E1 eq_refl eq_refl) as C1h.
+  pose proof (range_owner_clear _ _ _ _ _ _ _ B_PATH E1 eq_refl eq_refl) as C1p.
+  rewrite (range_owner_strip d1 B_USER usr z1 C1u).
+  destruct (range_owner cs d1 B_USER usr z1) as [[[t2 d2]|] z2] eqn:E2; [|intros H; discriminate H].
+  pose proof (range_owner_clear _ _ _ _ _ _ _ B_QUERY E2 C1q eq_refl) as C2q.
+  pose proof (range_owner_clear _ _ _ _ _ _ _ B_FRAG E2 C1f eq_refl) as C2f.
+  pose proof (range_owner_clear _ _ _ _ _ _ _ B_HOST E2 C1h eq_refl) as C2h.
+  pose proof (range_owner_clear _ _ _ _ _ _ _ B_PATH E2 C1p eq_refl) as C2p.
+  rewrite (range_owner_strip d2 B_QUERY qry z2 C2q).
+  destruct (range_owner cs d2 B_QUERY qry z2) as [[[t3 d3]|] z3] eqn:E3; [|intros H; discriminate H].
+  pose proof (range_owner_clear _ _ _ _ _ _ _ B_FRAG E3 C2f eq_refl) as C3f.
+  pose proof (range_owner_clear _ _ _ _ _ _ _ B_HOST E3 C2h eq_refl) as C3h.
+  pose proof (range_owner_clear _ _ _ _ _ _ _ B_PATH E3 C2p eq_refl) as C3p.
+  rewrite (range_owner_strip d3 B_FRAG frg z3 C3f).
+  destruct (range_owner cs d3 B_FRAG frg z3) as [[[t4 d4]|] z4] eqn:E4; [|intros H; discriminate H].
+  pose proof (range_owner_clear _ _ _ _ _ _ _ B_HOST E4 C3h eq_refl) as C4h.
+  pose proof (range_owner_clear _ _ _ _ _ _ _ B_PATH E4 C3p eq_refl) as C4p.
+  unfold host_step. mcbn. pose proof C4h as C4h'. unfold clear in C4h'. rewrite C4h'. cbn [negb]. rewrite !strip_t_val.
+  destruct (t_val fut) as [xf|] eqn:Ef.
+  - rewrite (range_owner_strip d4 B_HOST fut z4 C4h).
+    destruct (range_owner cs d4 B_HOST fut z4) as [[[t5 d5]|] z5] eqn:E5; [|intros H; discriminate H].
+    pose proof (range_owner_clear _ _ _ _ _ _ _ B_PATH E5 C4p eq_refl) as C5p.
+    tail C5p. reflexivity.
+  - destruct (t_val hst) as [xh|] eqn:Eh.
+    + rewrite (range_owner_strip d4 B_HOST hst z4 C4h).
+      destruct (range_owner cs d4 B_HOST hst z4) as [[[t5 d5]|] z5] eqn:E5; [|intros H; discriminate H].
+      pose proof (range_owner_clear _ _ _ _ _ _ _ B_PATH E5 C4p eq_refl) as C5p.
+      tail C5p. rewrite (strip_t_none fut Ef). reflexivity.
+    + tail C4p. rewrite (strip_t_none fut Ef), (strip_t_none hst Eh). reflexivity.
+Qed.
+
+(* make-owner of a borrowed object, whatever blocks it records: the hypothesis "a borrowed object records no
+   text block" (the fourth clause of mwf) is not needed; the recorded blocks are forgotten, not released *)
+Lemma make_owner_any_blocks m s : nofault s -> mwf_host m -> m_owner m = false ->
+  exists m' s', make_owner_m cs m s = (URI_SUCCESS, m', s')
+    /\ erase m' = make_owner (erase m) /\ to_text (erase m') = to_text (erase m)
+    /\ m_owner m' = true /\ all_owned m' = true /\ depends_on_input m' = false
+    /\ mwf m' /\ fresh_blocks s s' m' /\ nofault s'.
+Proof.
+  intros Hnf Hh Ho. assert (Ho' : m_owner (strip m) = false) by exact Ho.
+  destruct (C12_make_owner_stmt cs (strip m) s Hnf (mwf_strip m Hh Ho) Ho') as (m' & s' & E & R).
+  exists m', s'. rewrite erase_strip in R. split; [|exact R].
+  unfold make_owner_m in *. rewrite Ho' in E. rewrite Ho.
+  destruct (make_owner_engine cs (strip m) 0 s) as [[[[|] m1] d1] s1] eqn:EE.
+  - rewrite (engine_strip m s m1 d1 s1 EE). exact E.
+  - destruct (prevent_leakage m1 d1 s1) as [m2 s2]. discriminate E.
+Qed.
+End Strip.
